@@ -1,4 +1,5 @@
 """C03 — extreme operating points are honoured exactly."""
+import gen
 import thr_common
 from thr_common import shrink_thr as shrink_candidates  # noqa
 
@@ -27,16 +28,74 @@ def n_cases(tier):
 def gen_one(rng, i, tier):
     if tier == "thorough" and i < len(thr_common.EXH_THR):
         return thr_common.exhaustive_thr_input(i)
+    if i % 40 == 17:
+        # an extreme score at the very end of the float range (the usual "could not process" placeholder): the only
+        # threshold beyond it is +-inf, and that is what an extreme target must get
+        import sys
+        fmax = sys.float_info.max
+        pos, neg = gen.score_sets(rng, "generic", nmin=1, nmax=8, allow_empty=False)
+        which = rng.choice(["pos-hi", "pos-lo", "neg-hi", "neg-lo", "both"])
+        if which in ("pos-hi", "both"):
+            pos = pos + [fmax]
+        if which == "pos-lo":
+            pos = pos + [-fmax]
+        if which == "neg-hi":
+            neg = neg + [fmax]
+        if which in ("neg-lo", "both"):
+            neg = neg + [-fmax]
+        sc, ec = rng.choice(gen.CFGS)
+        return {"fmax": True, "stream": "generic", "pos": pos, "neg": neg, "ep": rng.choice([0, 0, 3]), "en": rng.choice([0, 0, 2]),
+                "sc": sc, "ec": ec, "metric": rng.choice(gen.METRICS), "rs": [0.0, 1.0, -0.5, 1.5]}
     return thr_common.gen_thr_input(rng, i, boundary_heavy=True)
 
 
 def nontrivial(inp):
-    if inp.get("big"):
+    if inp.get("big") or inp.get("fmax"):
         return True
     return (inp["ep"] > 0 or inp["en"] > 0 or (inp["sc"], inp["ec"]) != ("pos", "pos")
             or len(set(inp["pos"])) < len(inp["pos"]) or len(set(inp["neg"])) < len(inp["neg"])
             or len(inp["pos"]) == 1 or len(inp["neg"]) == 1)
 
 
+def _build_fmax(inp):
+    """scores at +-float max: judged on the implementation alone - the metric at the returned threshold must be the
+    smallest / largest value the metric takes over ALL thresholds (every score, its float neighbours, +-inf)"""
+    import math
+    import numpy as np
+    from score_analysis import Scores
+    import common
+    from common import Case, Issue
+
+    inp = dict(inp)
+    pos, neg = [float(common.unjson_num(x)) for x in inp["pos"]], [float(common.unjson_num(x)) for x in inp["neg"]]
+    s = Scores(pos, neg, nb_easy_pos=inp["ep"], nb_easy_neg=inp["en"], score_class=inp["sc"], equal_class=inp["ec"])
+    metric = inp["metric"]
+    grid = sorted(set(pos + neg))
+    with np.errstate(all="ignore"):
+        grid = np.array([-math.inf, math.inf] + grid + [float(np.nextafter(x, math.inf)) for x in grid]
+                        + [float(np.nextafter(x, -math.inf)) for x in grid])
+        vals = np.asarray(getattr(s, metric)(grid), dtype=float)
+    lo, hi = float(np.nanmin(vals)), float(np.nanmax(vals))
+    pre = []
+    for r in inp["rs"]:
+        for meth in gen.METHODS:
+            with np.errstate(all="ignore"):
+                t = common.call(getattr(s, "threshold_at_" + metric), r, method=meth)
+                if t[0] == "exc":
+                    pre.append(Issue("PROPFAIL", "raises", f"threshold_at_{metric}({r}, {meth}) raised {t[1]}: {t[2]}", f"thr/{metric}/raises"))
+                    continue
+                v = float(getattr(s, metric)(t[1]))
+            want = lo if r <= 0 else hi
+            if v != want:
+                pre.append(Issue("PROPFAIL", "extreme", f"Scores(pos={pos}, neg={neg}, ep={inp['ep']}, en={inp['en']}, {inp['sc']}/{inp['ec']})"
+                                 f".threshold_at_{metric}({r}, {meth}) = {t[1]}: {metric} there is {v}, the "
+                                 f"{'lowest' if r <= 0 else 'highest'} achievable value is {want}", f"thr/{metric}/extreme-fmax"))
+                break
+    inp["_evals"] = 12
+    return Case(ID, inp, [], lambda outs: [], ("float-max-score", f"metric={metric}"), 0, pre)
+
+
 def build(inp):
+    if inp.get("fmax"):
+        return _build_fmax(inp)
     return thr_common.build_thr(ID, inp, ["extreme"])
